@@ -515,6 +515,7 @@ func c06Loopback(c *Ctx) {
 					c.Res.Count("loopback:cases-with-stray-datagrams-before-the-reply", 1)
 				}
 				f.fm.ResetLog()
+				udpDropsBefore := rcvbufErrors()
 				recvBefore := total()
 				twin := i%10 == 3 && !op.Discovery && dv.state != "refusing" && replyClass == "prompt" && fixedPort == 0 && op.Name != "SetTime"
 				wantN := 1
@@ -652,6 +653,19 @@ func c06Loopback(c *Ctx) {
 				if twin && len(recvs) == 1 {
 					time.Sleep(20 * time.Millisecond) // the second goroutine's request may be logged a little later
 					recvs = collect(f.fm.Events())
+				}
+				if len(recvs) < wantN && wantProto == "udp" && out.Err != "" {
+					// a datagram that was sent sits in the farm's socket buffer until the farm's goroutine reads it (a loaded host), or was
+					// dropped by the kernel (its UDP receive-error counters move when other jobs flood this machine): neither says anything
+					// about where the library sent it
+					for q := 0; q < 500 && len(recvs) < wantN; q++ {
+						time.Sleep(2 * time.Millisecond)
+						recvs = collect(f.fm.Events())
+					}
+					if len(recvs) < wantN && udpDropsBefore >= 0 && rcvbufErrors() != udpDropsBefore {
+						c.Res.Inconcl("a request is missing at the farm and the kernel's UDP receive-error counter moved during the case (datagrams were dropped on this host): not judged")
+						continue
+					}
 				}
 				if len(recvs) != wantN {
 					c.Res.Violate(key+":count", fmt.Sprintf("%s (controller %s, protocol %q, bind %s): %d requests arrived at the farm, expected exactly %d (calls made: %d) at %s %s: %v", op.Name, dv.state, dv.proto, cfg.Bind, len(recvs), wantN, wantN, wantProto, wantEP.Addr, desc), wv, caseNo)
